@@ -26,7 +26,7 @@ def run(ctx):
                         positions=None, vis=(4,) if q else (0, 4, 8))
     C.append(xh.Cond('vp.harness.pipe', 'pipe_bytes', timeout=300, path_timeout=60, env={'VP_VERSIONS': '0,4,8'},
                      name='pipe.pipe_bytes/0', extra_pre=['k == 0', 'at == 1'], bound='byte skeleton 0 with one symbolic ASCII byte inserted at offset 1, with / without UTF-8 BOM', symbolic='byte value, BOM flag'))
-    for kk, at in ((1, 2), (2, 0), (3, 0)):
+    for kk, at in ((1, 2), (2, 0), (3, 0), (4, 0), (5, 20)):
         C.append(xh.Cond('vp.harness.pipe', 'pipe_bytes', timeout=300, path_timeout=60, env={'VP_VERSIONS': '0,4,8'}, name='pipe.pipe_bytes/%d' % kk,
                          extra_pre=['k == %d' % kk, 'at == %d' % at], bound='byte skeleton %d, symbolic ASCII byte at offset %d, BOM flag' % (kk, at), symbolic='byte value, BOM flag'))
     C.append(xh.Cond('vp.harness.units', 'split_lines_c', timeout=200, path_timeout=30,
